@@ -161,4 +161,12 @@ def r4_values(ctx):
                 ctx.ok('R4', '%s(%s)' % (im['self_ty'].rsplit('::', 1)[-1], ', '.join(tys)), 'types', site=adt['loc'])
 
 
-RULES = [('R1', r1_readers), ('R2', r2_layering), ('R3', r3_siblings), ('R4', r4_values)]
+def r5_conventions(ctx):
+    """R5 the three literal families accept the same number shapes in every separator convention of the quantifier: sample
+    renderings with thousands groups and a fraction, plain and as a percentage, are members of the number and percent
+    regexes (shared with C15 A4)"""
+    from .C15 import a4_numbers
+    a4_numbers(ctx)
+
+
+RULES = [('R1', r1_readers), ('R2', r2_layering), ('R3', r3_siblings), ('R4', r4_values), ('A4', r5_conventions)]
